@@ -1477,3 +1477,92 @@ def no_panicking_env(run, R="ERR4"):
                 bad.append("%s calls %s, which %s" % (f.loc(t["span"]), c, PANICKING_ENV[c]))
     run.check(n >= 1 and not bad, R, R + "|args-cannot-panic", "-", "the command line is read with a call that accepts any bytes (%d site(s))" % n,
               "%s: `customasm $'\\xff.asm'` panics instead of reporting that the file does not exist" % ("; ".join(bad) or "no read of the command line found"))
+
+
+# ---- OPT1: user-optional settings are never insisted on without a dominating test ---------------------------------------------
+# A bank's `#outp`, `#size` and `#labelalign` are optional in the language: the definitions hold them as `Option` fields, and
+# whether they are present is decided by the user's source.  An `unwrap()`/`expect()` on one of them (directly, or through an
+# accessor that answers `None` when the field is absent, found from the code: an Option-returning function that applies `?` to
+# such a field) is a panic on a legal program unless a test of that very setting dominates it.
+USER_OPTIONAL_FIELDS = (r"\.output_offset\b", r"\.label_align\b", r"bankdefs\b.*\)\.size\b")
+OPT_GUARD_FNS = ("asm::output::check_bank_output",)     # fails (Err, propagated by `?`) when the current bank has no output position
+
+
+def _optional_accessors(prog):
+    import re as _re
+    import rules_sym
+    acc = {}
+    for f in prog.real_fns():
+        if f.kind not in ("Fn", "AssocFn") or not (f.ret or "").startswith("std::option::Option<"):
+            continue
+        for bi, t in f.calls():
+            if (t.get("callee") or "") == TRY_BRANCH and t["args"]:
+                try:
+                    e = str(rules_sym.deep(f, t["args"][0], d=4))
+                except Exception:
+                    continue
+                if any(_re.search(p, e) for p in USER_OPTIONAL_FIELDS):
+                    acc[f.id] = e
+    return acc
+
+
+def optional_setting_unwrap(run, R="OPT1"):
+    import re as _re
+    import rules_sym
+    acc = _optional_accessors(run.prog)
+    pats = list(USER_OPTIONAL_FIELDS) + [_re.escape(_re.sub(r"<.*?>", "", a).split("::", 1)[-1].rsplit("::", 2)[-2] + "::" + a.rsplit("::", 1)[-1]) + r"\(" for a in acc]
+    names = ["output_offset", "label_align", "size"] + [a.rsplit("::", 1)[-1] for a in acc]
+    n = 0
+    seen = {}
+    for f in run.prog.real_fns():
+        for bi, t in sorted(f.calls(), key=lambda x: x[0]):
+            c = t.get("callee") or ""
+            if not _re.search(r"(Option::<T>|Result::<T, E>)::(unwrap|expect)$", c) or (t.get("span") or {}).get("mac") or not t["args"]:
+                continue
+            try:
+                e = str(rules_sym.deep(f, t["args"][0], d=5))
+            except Exception:
+                e = "?"
+            which = [p for p in pats if _re.search(p, e)]
+            if not which:
+                continue
+            n += 1
+            guard = None
+            from rules_mpt import success_edge_of_call
+            for bj, u in f.calls():
+                if bj == bi or not f.dominates(bj, bi):
+                    continue
+                cu = u.get("callee") or ""
+                if cu in OPT_GUARD_FNS:
+                    se = success_edge_of_call(f, bj, u)
+                    if se is not None and f.edge_dominates(se[0], se[1], bi) and len(u["args"]) == 7 and str(rules_sym.deep(f, u["args"][6], d=2)) == "true":
+                        guard = "%s at %s (asked about writing; its failure is propagated by `?`)" % (cu.rsplit("::", 1)[-1], f.loc(u["span"]))
+                        break
+                m = _re.search(r"Option::<T>::(is_none|is_some)$", cu)
+                if m and u["args"] and not u["dest"]["p"] and u.get("target") is not None:
+                    try:
+                        eu = str(rules_sym.deep(f, u["args"][0], d=5))
+                    except Exception:
+                        continue
+                    st = f.blocks[u["target"]]["term"]
+                    if eu != e or st["k"] != "switch" or st.get("discr_ty") != "bool":
+                        continue
+                    dl = st["discr"].get("move") or st["discr"].get("copy") or {}
+                    if dl.get("l") != u["dest"]["l"]:
+                        continue
+                    zero = [tg for v, tg in st["targets"] if v == "0"]
+                    present = st.get("otherwise") if m.group(1) == "is_some" else (zero[0] if zero else None)
+                    if present is not None and f.edge_dominates(u["target"], present, bi):
+                        guard = "%s at %s (the call sits on the branch where the setting is present)" % (m.group(1), f.loc(u["span"]))
+                        break
+            what = next(nm for p, nm in zip(pats, names) if _re.search(p, e))
+            seen[(f.id, what)] = seen.get((f.id, what), 0) + 1
+            key = "%s|%s|%s|#%d" % (R, f.id, what, seen[(f.id, what)])
+            run.check(guard is not None, R, key, f.loc(t["span"]),
+                      "%s insists (%s) on the optional bank setting `%s` behind a dominating test: %s" % (f.id, c.rsplit("::", 1)[-1], what, guard),
+                      "%s calls %s() on `%s`, a bank setting the user may leave out, and no test of it dominates the call (no is_some/is_none on the same value, no %s): a legal program without that setting panics here" % (
+                          f.id, c.rsplit("::", 1)[-1], e[:160], "/".join(g.rsplit("::", 1)[-1] for g in OPT_GUARD_FNS)))
+    run.check(bool(acc), R, R + "|accessors", "-", "accessors answering None for an absent bank setting (found from the code): %s" % sorted(acc),
+              "no accessor of an optional bank setting found (anchor lost)")
+    run.floor(R, "insisting uses of optional bank settings", n, 4)
+    return n
